@@ -134,6 +134,10 @@ def run_case(case, built=None, keep_obs=False):
                 findings += monitors.check_events(obs, ro, ref, prog, cancelled=was_cancelled)
             if case.get('store') and not was_cancelled:
                 findings += monitors.check_saves(obs, ro, ref, prog)
+        if faults and not was_cancelled and case.get('events', True) \
+                and all(name == 'save' for name, _ in case.get('collab_faults')):
+            # only the artifact store raises, the event managers do not: the lifecycle grammar (C14) still binds
+            findings += monitors.check_events(obs, ro, ref, prog, cancelled=False)
         findings += monitors.check_post_end(obs, ro)
         if ro.kwargs_before is not None and ro.kwargs_after is not None \
                 and ro.kwargs_before != ro.kwargs_after:
